@@ -7,6 +7,7 @@ from typing import Any
 
 from sqlalchemy.engine import make_url
 
+from _pytask.database_utils import DatabaseSession
 from _pytask.database_utils import create_database
 from _pytask.pluginmanager import hookimpl
 
@@ -43,3 +44,11 @@ def pytask_parse_config(config: dict[str, Any]) -> None:
 def pytask_post_parse(config: dict[str, Any]) -> None:
     """Post-parse the configuration."""
     create_database(config["database_url"])
+
+
+@hookimpl
+def pytask_unconfigure() -> None:
+    """Close the connections of the engine the session factory is bound to."""
+    engine = DatabaseSession.kw.get("bind")
+    if engine is not None:
+        engine.dispose()
